@@ -51,7 +51,7 @@ theorem frameLoop_spec (Q : Nat → Bool) (mx fuel f : Nat) (hfuel : mx - f ≤ 
 /-- C04 (processing): the claimed frame is accepted exactly when it is allowed. -/
 theorem C04_process_accepts_iff (Q : Nat → Bool) (spf claimed : Nat) (hQ0 : Q 0 = false) :
     frameAccepted Q spf claimed = true ↔ Allowed Q spf claimed := by
-  unfold frameAccepted calcFrameIdx Allowed Gen.Orderer.wrongFrame Gen.Orderer.frameIsZero Gen.Orderer.frameIfZero
+  unfold frameAccepted calcFrameIdx Allowed Gen.Orderer.wrongFrame Gen.Orderer.frameIsZero Gen.Orderer.frameIfZero Gen.Orderer.checkOnlyMaxFrame
   simp only [if_true, Bool.not_eq_eq_eq_not, Bool.not_true, decide_eq_false_iff_not, ne_eq, Decidable.not_not]
   obtain ⟨h1, h2, h3, h4⟩ := frameLoop_spec Q claimed (claimed - spf) spf (Nat.le_refl _)
   generalize frameLoop Q claimed (claimed - spf) spf = r at *
